@@ -378,6 +378,16 @@ def cases(tier, seed):
               yield {"grid": _late_wide(n, w, late, extra, fill), "headers": h, "delimiter": ',',
                      "quotechar": '"',
                      "recipe": "late_wide(n=%d,w=%d,late=%d,extra=%d,fill=%r)" % (n, w, late, extra, fill)}
+  # (W2) very long grids: the importer also samples the first 1000 rows (type guessing), so the
+  # widest row is placed around / after that boundary too
+  for n in ((1005, 1200) if quick else (1001, 1005, 1100, 1200, 2100)):
+    for w in (2, 3):
+      for late in (998, 999, 1000, 1001, n - 1):
+        if late >= n: continue
+        for h in (False, True):
+          yield {"grid": _late_wide(n, w, late, 2, "v"), "headers": h, "delimiter": ',',
+                 "quotechar": '"',
+                 "recipe": "late_wide(n=%d,w=%d,late=%d,extra=2,fill='v')" % (n, w, late)}
   # (R) seeded random grids, any characters, several delimiters / quote characters
   rng = random.Random(1000003 * seed + 32)
   for _ in range(3000 if quick else 400000):
@@ -415,7 +425,8 @@ def main():
   rep.coverage["bound"] = {
     "exhaustive": ("all ragged grids with <=3 rows x <=2 cells over %r and <=3 x <=3 over %r" % (POOL6, POOL3))
       if quick else ("all ragged grids with <=3 rows x <=2 cells over %r, <=3 x <=3 over %r and <=4 x <=3 over %r" % (POOL6, POOL4, POOL3)),
-    "long": "540 grids of 101/110/130 rows with one wider row at 0/50/99/100/last, + random long grids",
+    "long": "540 grids of 101/110/130 rows with one wider row at 0/50/99/100/last, grids of 1005/1200 "
+            "rows (thorough: up to 2100) with the wider row at 998..1001/last, + random long grids",
     "random": "%d seeded random grids (<=12 rows, <=8 cells, %d-symbol alphabet, delimiters %r, quotes %r)" % (
       3000 if quick else 400000, len(ALPHABET), DELIMS, QUOTES)}
   driver.check(rep, CONTRACT, cases, exhaustive=False)
